@@ -2788,7 +2788,12 @@ def c10_new_object(what, spec, idnt):
         from nanite.rate.rater import IndentationRater
         X, y = IndentationRater.load_training_set(path=_zef18_path())
         st = int(spec.get("step", 3))
-        return (np.array(X[::st], copy=True), np.array(y[::st], copy=True))
+        X = np.array(X[::st], copy=True)
+        for r_, c_, v_ in spec.get("inf", []):
+            # legal input: a feature that is infinite for some samples
+            X[r_ % X.shape[0], c_ % X.shape[1]] = \
+                np.inf if v_ > 0 else -np.inf
+        return (X, np.array(y[::st], copy=True))
     if what == "weights":
         from nanite.rate.rater import IndentationRater
         X, y = IndentationRater.load_training_set(path=_zef18_path())
@@ -2864,6 +2869,23 @@ def c10_apply(idnt, caller, op):
                 elif route == "details":
                     idnt.apply_preprocessing(steps, options,
                                              ret_details=True)
+                elif route == "attr_inplace":
+                    # the remembered attributes are edited in place to the
+                    # new request, then the curve is asked to apply them
+                    idnt.preprocessing[:] = steps
+                    if options is not None:
+                        po = idnt.preprocessing_options
+                        for k_ in list(po):
+                            if k_ not in options:
+                                del po[k_]
+                        for k_, v_ in options.items():
+                            if isinstance(po.get(k_), dict) and \
+                                    isinstance(v_, dict):
+                                po[k_].clear()
+                                po[k_].update(v_)
+                            else:
+                                po[k_] = v_
+                    idnt.apply_preprocessing()
                 else:
                     kw = {"preprocessing": steps}
                     if options is not None:
@@ -3125,9 +3147,23 @@ def c10_gen_scenario(rng, sid):
         ops.append({"op": "mutate", "slot": s, "edit": ed})
         ops.append({"op": "prep", "steps": steps, "options": {"slot": s},
                     "route": rng.choice(["apply", "fit_kw"])})
+        if rng.random() < 0.4:
+            # ... and once more through the curve's own attributes, edited
+            # in place
+            o3 = copy.deepcopy(opts)
+            o3["correct_tip_offset"] = {"method": rng.choice(
+                ["gradient_zero_crossing", "fit_constant_line",
+                 "deviation_from_baseline"])}
+            ops.append({"op": "prep", "steps": steps, "options": o3,
+                        "route": "attr_inplace"})
     elif kind == "trainset":
+        tspec = {"step": rng.choice([3, 4])}
+        if rng.random() < 0.3:
+            tspec["inf"] = [[rng.randrange(100), rng.randrange(12),
+                             rng.choice([1, -1])]
+                            for _ in range(rng.choice([1, 2]))]
         ops.append({"op": "new", "slot": s, "what": "trainset",
-                    "spec": {"step": rng.choice([3, 4])}})
+                    "spec": tspec})
         ops.append({"op": "fit", "args": {}})
         reg = rng.choice(["Decision Tree", "Extra Trees",
                           "SVR (linear kernel)", "SVR (RBF kernel)"])
@@ -3151,7 +3187,24 @@ def c10_gen_scenario(rng, sid):
             "kind": "dict_set", "path": ["max_nfev"],
             "value": rng.choice([4, 8, 12])}})
         ops.append({"op": "fit", "args": {"method_kws": {"slot": s}}})
-    elif kind == "range_x" and rng.random() < 0.35:
+    elif kind == "range_x" and rng.random() < 0.3:
+        # plateau search: the lower bound is edited (a don't-care there),
+        # then the upper one, always on the same list object
+        extra.pop("range_x", None)
+        ops.append({"op": "new", "slot": s, "what": "range_x",
+                    "spec": [-1e-6, 5e-7]})
+        ops.append({"op": "fit", "args": {
+            "range_x": {"slot": s}, "optimal_fit_edelta": True,
+            "optimal_fit_num_samples": 7}})
+        ops.append({"op": "mutate", "slot": s, "edit": {
+            "kind": "list_set", "index": 0,
+            "value": rng.choice([-6e-7, -3e-7])}})
+        ops.append({"op": "fit", "args": {"range_x": {"slot": s}}})
+        ops.append({"op": "mutate", "slot": s, "edit": {
+            "kind": "list_set", "index": 1,
+            "value": rng.choice([3e-7, 8e-7])}})
+        ops.append({"op": "fit", "args": {"range_x": {"slot": s}}})
+    elif kind == "range_x" and rng.random() < 0.5:
         # plateau search first; then it is switched off in the same call
         # that passes the (edited) range - keyword order must not matter
         ops.append({"op": "new", "slot": s, "what": "range_x",
